@@ -603,7 +603,10 @@ def traceback_case(seed: int, idx: int, tier: str):
     from rich.traceback import Traceback
 
     rng = random.Random(f"c17tb:{seed}:{idx}")
-    tmp = tempfile.mkdtemp(prefix="c17tb_")
+    # the same directory (hence the same file paths) is reused by every case of this worker process, with
+    # different contents each time: a renderer that caches source by path shows stale lines
+    tmp = os.path.join(tempfile.gettempdir(), "c17tb_%d" % os.getpid())
+    os.makedirs(tmp, exist_ok=True)
     fails = []
     counts = {"c17.traceback_line": 0}
     key = f"tb#{idx}"
@@ -690,7 +693,12 @@ def traceback_case(seed: int, idx: int, tier: str):
             if not readable:
                 continue
             counts["c17.traceback_line"] += 1
-            want = linecache.getline(fname, lineno).rstrip("\n").expandtabs(4).rstrip()
+            try:  # the oracle reads the file itself (no cache of any kind)
+                with open(fname, "r", encoding="utf-8") as _fh:
+                    _src_lines = _fh.read().split("\n")
+            except OSError:
+                _src_lines = []
+            want = (_src_lines[lineno - 1] if 0 < lineno <= len(_src_lines) else "").expandtabs(4).rstrip()
             where = f"{os.path.basename(fname)}:{lineno} in {name}"
             if len(marked) != 1:
                 fails.append(("c17.traceback_line", f"{where}: {len(marked)} marked rows for a readable frame", f"❱ {lineno} {want}"[:140],
@@ -708,8 +716,11 @@ def traceback_case(seed: int, idx: int, tier: str):
                               f"{lineno} {want}"[:140], f"{num} {text}"[:140]))
         return fails, counts, key, len(frames), replay
     finally:
-        linecache.clearcache()
-        shutil.rmtree(tmp, ignore_errors=True)
+        for _p in list(paths) + [runner_path]:
+            try:
+                os.remove(_p)
+            except OSError:
+                pass
 
 
 # ------------------------------------------------------------------------------------------------ pool work
